@@ -38,6 +38,7 @@ static BURST_LOCK: std::sync::Mutex<()> = std::sync::Mutex::new(());
 
 thread_local! {
     static RECENT_SECRETS: std::cell::RefCell<std::collections::VecDeque<String>> = const { std::cell::RefCell::new(std::collections::VecDeque::new()) };
+    static RECENT_KEYS: std::cell::RefCell<std::collections::VecDeque<[u8; 32]>> = const { std::cell::RefCell::new(std::collections::VecDeque::new()) };
 }
 
 /// A client stuck in a retry loop: the very same request presented many times in a row, with no other
@@ -53,6 +54,32 @@ pub fn check_burst(b: &Burst, cc: &mut CaseCtx) -> CheckResult {
         10..=40 => "10-40-times",
         _ => "over-40-times",
     });
+    Ok(())
+}
+
+#[derive(Clone, Debug, Serialize, Deserialize)]
+pub struct Rotation {
+    pub leak: PlanLeak,
+    pub secrets: [String; 2],
+    /// which of the two secrets the provider holds (and the client signs with) at each step
+    pub order: Vec<bool>,
+}
+
+pub fn check_rotation(r: &Rotation, cc: &mut CaseCtx) -> CheckResult {
+    for (i, second) in r.order.iter().enumerate() {
+        let mut step = r.leak.clone();
+        let secret = r.secrets[*second as usize].clone();
+        step.plan.spec.secret = secret.clone();
+        step.plan.entry.secret = secret;
+        // every other step is a correctly signed request, the rest carry a spoiled signature
+        if i % 2 == 0 {
+            step.spoil = 0;
+        }
+        let mut scratch = CaseCtx::default();
+        check_plan_leak(&step, if i + 1 == r.order.len() { &mut *cc } else { &mut scratch })
+            .map_err(|f| Failure::new(&format!("{}:after-rotation", f.sig), format!("{} (step {} of a history in which the secret behind one access key alternates: {:?})", f.msg, i + 1, r.order)))?;
+    }
+    cc.class_if(r.order.windows(2).any(|w| w[0] != w[1]), "secret-replaced-at-least-once");
     Ok(())
 }
 
@@ -126,6 +153,21 @@ pub fn check_plan_leak(pl: &PlanLeak, cc: &mut CaseCtx) -> CheckResult {
     for s in &earlier {
         nd.push(("the secret key of an earlier validation on this thread".into(), s.clone()));
     }
+    // ... nor the signing keys derived in them (a key that has just been replaced is still a key)
+    let earlier_keys: Vec<[u8; 32]> = RECENT_KEYS.with(|r| {
+        let mut r = r.borrow_mut();
+        let snapshot: Vec<[u8; 32]> = r.iter().filter(|k| **k != chain[3]).cloned().collect();
+        r.push_back(chain[3]);
+        if r.len() > 48 {
+            r.pop_front();
+        }
+        snapshot
+    });
+    for k in &earlier_keys {
+        nd.push(("the signing key of an earlier validation on this thread (hex)".into(), hex_lower(k)));
+        nd.push(("the signing key of an earlier validation on this thread (HEX)".into(), hex_upper(k)));
+        nd.push(("the signing key of an earlier validation on this thread (base64)".into(), base64(k, false, true)));
+    }
     cc.class(if refused { "refused" } else { "accepted" });
     cc.class_if(earlier.len() >= 16, "with->=16-earlier-secrets-on-this-thread");
     cc.class_if(case.cfg.service == "s3", "service-s3");
@@ -156,6 +198,19 @@ pub fn subs() -> Vec<Box<dyn AnySub>> {
                     .boxed()
             },
             check: check_burst,
+        }),
+        // the secret behind an access key is replaced (same access key, region, service and day), and a client that still
+        // signs with the old one knocks: neither the old nor the new key material may surface
+        Box::new(Sub {
+            name: "secret-rotated-under-the-same-access-key",
+            quick: 6_000,
+            thorough: 100_000,
+            strat: || {
+                (crate::gen::plan(crate::gen::PlanOpts { plain_spelling: true, ..crate::gen::quiet_opts() }), "[A-Za-z0-9/+]{20,40}", "[A-Za-z0-9/+]{20,40}", 0u8..7, proptest::collection::vec(any::<bool>(), 2..6))
+                    .prop_map(|(plan, s1, s2, spoil, order)| Rotation { leak: PlanLeak { plan, spoil }, secrets: [s1, s2], order })
+                    .boxed()
+            },
+            check: check_rotation,
         }),
         Box::new(Sub {
         name: "leaks",
